@@ -327,3 +327,19 @@ def search_roles(b, res):
             elif tag(init) == "lo":
                 roles.setdefault("next_offset", i)
     return roles
+
+
+def ok_facts_deep(ctx, ev, c, depth=3):
+    """facts that hold whenever the inlined callee of entry `c` returned Ok: its own (callee_variant_facts) and, for helpers it calls with `?`, theirs"""
+    fs = set(callee_variant_facts(ctx, ev, c, ("Ok",)))
+    sub_res = c.get("sub")
+    if sub_res is None or depth <= 0:
+        return fs
+    for n in sub_res.log:
+        if n["kind"] == "call" and n.get("inlined") and n.get("res") is sub_res:
+            r_ = n["result"]
+            errs = [p_[0] for n_, p_ in (dict(r_[2]).items() if tag(r_) == "vsum" else []) if n_ == "Err" and p_]
+            passed = any(f[0] == "discr" and f[2] in (("eq", 0), ("ne", (1,))) and (mentions(f[1], r_) or any(mentions(f[1], x_) for x_ in errs)) for f in fs)
+            if passed:
+                fs |= ok_facts_deep(ctx, ev, n, depth - 1)
+    return fs
